@@ -31,6 +31,8 @@ type Transport struct {
 	CloseN    int
 	FailWrite func(n int) error // consulted before the n-th write/writev (1-based)
 	FailFlush func(n int) error
+	// CloseErr: what Close returns (the connection is closed all the same: a failing close_notify, a socket torn down underneath)
+	CloseErr error
 	// PartialOnFail: a failing Write has already taken the first byte of the payload (n = 1 together with the error)
 	PartialOnFail bool
 	nWrite    int
@@ -184,9 +186,10 @@ func (t *Transport) Close() error {
 	t.CloseN++
 	t.closed = true
 	t.record(Call{Op: "close"})
+	err := t.CloseErr
 	t.mu.Unlock()
 	t.cond.Broadcast()
-	return nil
+	return err
 }
 
 // Snapshot returns a copy of the call log.
